@@ -17,6 +17,7 @@ func Log(format string, a ...any)  { vrt.Log(fmt.Sprintf(format, a...)) }
 func Fail(format string, a ...any) { vrt.Fail(fmt.Sprintf(format, a...)) }
 func LogSnapshot() []string        { return vrt.LogSnapshot() }
 func Point(kind string)            { vrt.PointOp(kind) }
+func PointExternal(kind string)    { vrt.PointExternal(kind) }
 func Quiesce()                     { vrt.Quiesce() }
 func Yield()                       { vrt.Yield() }
 
